@@ -38,7 +38,8 @@ def run(ctx, factor):
                 if isinstance(tmpl[key], list) and formal in tmpl[key]:
                     inl = {key: [val2 if x == formal else x for x in tmpl[key]]}
                     if "@" not in json.dumps(inl):
-                        mdoc["pattern"] = mdoc["pattern"] + [{m["name"]: {formal: val2}}]
+                        use2 = g.pick([{m["name"]: {formal: val2}}, {m["name"]: None, formal: val2}, {formal: val2, m["name"]: None}])
+                        mdoc["pattern"] = mdoc["pattern"] + [use2]
                         doc = dict(doc)
                         doc["pattern"] = doc["pattern"] + [inl]
                         forms = forms + ["parameterised-second-use-other-argument"]
